@@ -1256,17 +1256,17 @@ PROPS["C07"]["level_text"] = PROPS["C07"]["level_text"] + (
 PROPS["C04"]["code_modules"] = ["Flamego.Props.C04Code"]
 PROPS["C04"]["technique"] = PROPS["C04"]["technique"] + "; code-level tie for injector.Value / Set / SetParent: the bodies are translated to Lean on every run and proved to return an element of the model's set of admissible answers along every chain of scopes"
 PROPS["C04"]["level_text"] = PROPS["C04"]["level_text"] + (
-    " CODE-LEVEL TIE: /verif/translator regenerates Gen/InjectCode.lean from inject/inject.go on every run (the injector struct, Set, "
+    " CODE-LEVEL TIE: /verif/translator regenerates Gen/InjectCode.lean from inject/inject.go on every run (the injector struct, Map, Set, "
     "Value, SetParent; reflect.Type / reflect.Value / Kind / Implements stand for the universe of Model/Inject, the parent injector is an "
     "environment object) and Props/C04Code proves value_one (one level: exact registration, else an implementor of this scope, else the "
     "parent's answer, the zero Value without a parent; registrations untouched), chain_in_valueSet (with every parent answering what the "
     "code's own Value returns on it, the result is an element of the model's valueSet for the chain, zero exactly when that is empty), "
-    "code_nearest_exact, code_implementor_before_parent, set_refines (Set = register for every lookup). When the source leaves the "
+    "code_nearest_exact, code_implementor_before_parent, set_refines / map_refines (Set and Map = register for every lookup). When the source leaves the "
     "translated subset or a proof no longer checks, the evidence says so and the correspondence, run over four seeds instead of one, decides.")
 PROPS["C04"]["trusted_base"] = PROPS["C04"]["trusted_base"] + [
     "code-level tie: the Go→Lean translator of method bodies (translator/gocode.go, injectcode.go), Code/GoSem.lean (a Go map as an "
     "association list with one entry per key; the order of `range` over it is whatever order the run took) and Code/LibReflect.lean; "
-    "Map, MapTo, Invoke, Apply use reflect.TypeOf/ValueOf and are not translated (listed in the generated file)"]
+    "MapTo, Invoke, Apply, fastInvoke, callInvoke are not translated (listed in the generated file)"]
 
 PROPS["C17"]["technique"] = PROPS["C17"]["technique"] + "; code-level tie: the bodies of JSON, XML, Binary and PlainText are translated to Lean on every run and proved to issue exactly the model's operations on the response writer, for every renderer, payload and behaviour of the encoders"
 PROPS["C17"]["level_text"] = PROPS["C17"]["level_text"] + (
